@@ -8,6 +8,7 @@ pub mod c04;
 pub mod c05;
 pub mod c06;
 pub mod c07;
+pub mod c08;
 pub mod c09;
 #[cfg(not(feature = "inproc"))]
 pub mod c12;
@@ -48,6 +49,7 @@ table! {
     "C05" => c05::C05,
     "C06" => c06::C06,
     "C07" => c07::C07,
+    "C08" => c08::C08,
     "C09" => c09::C09,
     #[cfg(not(feature = "inproc"))]
     "C12" => c12::C12,
@@ -66,6 +68,7 @@ table! {
 
 pub fn helper(args: &[String]) -> i32 {
     match args.first().map(|s| s.as_str()) {
+        Some("c08client") => c08::helper_main(&args[1..]),
         _ => {
             eprintln!("unknown helper {:?}", args);
             2
